@@ -44,6 +44,8 @@ REQ_CONTINUE = bytes.fromhex('100000000000')
 
 
 def H(b):
+    if b is None:                 # a message that could not be generated: the case is skipped by its caller
+        return '<none>'
     return hx(b) if len(b) else '-'
 
 
@@ -95,6 +97,15 @@ def ndef_msg(rng, size):
             continue
         if back == m:
             return m
+    # the random shapes did not fit (most of them have more overhead than a small message allows, and a
+    # single padded record cannot hit the three sizes just above the short-record limit): deterministic
+    # fallback, total for every size >= 3
+    for nrec in (1, 2, 3):
+        def build(pad, nrec=nrec):
+            return [ndef.Record('unknown', '', bytes(40))] * (nrec - 1) + [ndef.Record('unknown', '', bytes((7 + i) & 255 for i in range(pad)))]
+        m = _sized(build, size)
+        if m is not None and enc(list(ndef.message_decoder(m, known_types={}))) == m:
+            return m
     return None
 
 
@@ -103,6 +114,8 @@ def ho_msg(rng, size, select):
     for _ in range(10):
         fill = rng.randrange(256)
         ncar = rng.choice([1, 1, 2])
+        if _ >= 6:                       # deterministic fallback: another structure has other reachable sizes
+            ncar = _ - 5
 
         def build(pad, fill=fill, ncar=ncar):
             if select:
@@ -1212,7 +1225,39 @@ def main():
         ck.cov['traces_validated_against_impl'] = nval[0]
         ck.finish(level='proof', rule='replay of one recorded case', explanation='replay')
 
-    # corpus of minimised past failures first: two handover requests on one connection
+    # corpus of minimised past failures first.  The corpus is the same for every VERIF_SEED (own random
+    # stream); a case whose messages cannot be generated is skipped and counted, never run with None.
+    import random as _random
+    main_rng, rng = rng, _random.Random(0xC06)
+
+    def have(*ms):
+        if any(m is None for m in ms):
+            ck.count('corpus-case-not-generated')
+            return False
+        return True
+
+    _coupled, _fullstack, _history = coupled, fullstack, history
+
+    def amsgs(answers):
+        return [x[1] for x in answers if len(x) > 1 and not isinstance(x[1], int)]
+
+    def coupled(kind, ops, miu_cs, miu_sc, max_acc, answers, *a, **kw):          # noqa: corpus-only wrappers
+        if have(*([o[1] for o in ops] + amsgs(answers))):
+            _coupled(kind, ops, miu_cs, miu_sc, max_acc, answers, *a, **kw)
+
+    def fullstack(kind, ops, cfg, max_acc, answers, *a, **kw):        # noqa
+        if have(*([o[1] for o in ops] + amsgs(answers))):
+            _fullstack(kind, ops, cfg, max_acc, answers, *a, **kw)
+
+    def history(segments, *a, **kw):           # noqa
+        ms = []
+        for seg in segments:
+            for op, rsp in ([(seg[1], seg[2])] if seg[0] == 'oneshot' else seg[2]):
+                ms += [op[1], rsp]
+        if have(*ms):
+            _history(segments, *a, **kw)
+
+    # two handover requests on one connection
     req1 = ho_msg(rng, 60, False)
     req2 = ho_msg(rng, 300, False)
     sel1 = ho_msg(rng, 70, True)
@@ -1277,6 +1322,7 @@ def main():
     history(hist0, [[128, 128], [128, 128]],
             {'miu_i': 128, 'miu_t': 248, 'agf': False, 'srv_side': 't', 'srv_miu': 128, 'srv_rw': 2, 'cl_miu': 128, 'cl_rw': 1})
     flush()
+    coupled, fullstack, history, rng = _coupled, _fullstack, _history, main_rng
 
     tick('corpus')
     n_hist = 40 if quick else 800
@@ -1418,7 +1464,7 @@ def main():
         elif k == 3:    # response code outside a byte: struct.error in the server thread
             coupled('snep', [('put', msg)], miu_cs, miu_sc, 0x100000, [('p', rng.choice([256, -1, 1000]))], 'odd')
         elif k == 4:    # request that is not a handover request: no answer, the client times out
-            coupled('ho', [('ho', ndef_msg(rng, 50) or b'\xd0\x00\x00')], max(miu_cs, 16), max(miu_sc, 16), 0, [('h', sel1)], 'odd')
+            coupled('ho', [('ho', ndef_msg(rng, 50) or b'\xd0\x00\x00')], max(miu_cs, 16), max(miu_sc, 16), 0, [('h', sel1)] if sel1 else [], 'odd')
         elif k == 5:    # MIU below the SNEP header size
             coupled('snep', [('put', msg)], rng.choice([1, 2, 5]), miu_sc, 0x100000, [], 'odd')
         else:
